@@ -47,6 +47,8 @@ fn main() {
         ("faults", "child") => props::faults::child(&args),
         ("faults", "run") => props::faults::run(&args),
         ("replay", "ods_text") => props::ods_text::replay(&args),
+        ("replay", "stream") => props::stream::replay(&args),
+        ("drive", "stream") => props::stream::drive(&args),
         ("replay", "bin_text") => props::bin_text::replay(&args),
         ("drive", "bin_text") => props::bin_text::drive(&args),
         ("replay", "xls_merge") => props::xls_merge::replay(&args),
